@@ -29,6 +29,16 @@ MANIFEST = dict(
          'parameter bound again (also read through an instantiation), and on the result of every entry each setter its class offers '
          'is called twice with different values, the whole node being read after every client action - a part reads as the value given '
          'last (C02_latest_binding, C02_builder_history). '
+         'Round 6: every request that takes a type / function type / template type is also made right before and right after a request that '
+         'differs from it ONLY in that operand and there only in top-level cv-qualification, in the exception specification, in the transfer or in '
+         'the qualification of the target -- same name, same word, same scope (declaration makers share the scope) -- either of the two being the '
+         'one observed (#near-equal, C02_near_equal_own_node: near-equal operands give their own nodes); every member sequence a client fills '
+         'on a result (imports, purview, exported modules and exported declarations of units; attributes and captures of lambdas; suffix and '
+         'attributes of declarator species; attributes of every statement and declaration ...) receives members of its own, the j-th sequence j+1 '
+         'of them, and every sequence accessor must report exactly the members given to THAT sequence (#lists-filled, '
+         'C02_member_sequences_told_apart); modules, interface units and translation units are entries; a member added to a parameter list / '
+         'enumeration / base list after one whose name and type (name only, type only, no name) it repeats is a new member at position 1 '
+         '(#after-same-key ..., C02_second_member_is_its_own); one Lexicon is given 25 000 variables with distinct 31-character names, all re-read. '
          'Exhaustive over factories; operands are universally quantified in the theorems and sampled on the code.',
     note='Lean kernel; axioms propext/Classical.choice/Quot.sound; hand-written model and hand-written documented table; the tie to the C++ '
          'is the table regenerated by execution (harness/c02probe.cxx + observe.hxx, python classification in vlib/wiring_common.py), '
@@ -37,6 +47,7 @@ MANIFEST = dict(
     ref='§4 C02')
 
 MAX_REPORTS = 6
+SCALE = 25000        # variables with distinct 31-character names declared in one Lexicon: more spellings than one block of the string storage (1 MiB) holds
 
 
 def report_table_diffs(res, sw, exp, prop_filter=None, what='accessor'):
@@ -70,6 +81,9 @@ def report_table_diffs(res, sw, exp, prop_filter=None, what='accessor'):
 
 FORMS = {'operand_returned_by_an_earlier_call_of_the_same_function': '#nested', 'operand_is_an_id_expression_with_a_resolution': '#resolved-operand',
          'reserved_spelling_next_to_a_type': '#reserved-spelling', 'container_empty_when_the_node_is_made': '#list-filled-later',
+         'request_next_to_a_near_equal_request': '#near-equal', 'member_sequences_of_the_result_filled': '#lists-filled',
+         'member_added_after_one_whose_key_it_repeats': ('#after-same-key', '#after-same-name', '#after-same-type', '#both-unnamed', '#after-other-name', '#after-other-type'),
+         'units_and_modules': ('Module::', 'Translation_unit::'),
          'substitution_bound_again': ('#rebound', '#through-instantiation'),
          'operand_is_a_redeclaration': '#redeclaration', 'operand_is_a_parameter_enumerator_base_function_or_template':
          ('#parameter', '#enumerator', '#base', '#function', '#template'), 'operand_storage_recycled': ('#recycled-storage', '#recycled-unit'),
@@ -114,7 +128,7 @@ def report_builder_histories(res, sw, reported):
 def run(tier):
     res = C.Result(PID, tier)
     rounds = 1 if tier == 'quick' else 3
-    sw = W.Sweep(rounds=rounds, extra_ops=['recheck'])
+    sw = W.Sweep(rounds=rounds, extra_ops=['recheck', 'scale %d' % SCALE])
     if sw.crashed:
         res.violation('crash', 'c02probe stopped (exit %d) while sweeping the factories; last call: %s\n%s' % (sw.rc, sw.last_key(), sw.err[-3000:]),
                       'call %s\n' % (sw.last_key() or '?'))
@@ -183,6 +197,19 @@ def run(tier):
                               C.seed(), c.key, c.inst, ' '.join(c.args), c.result, name, f, v0, v1))
             reported += 1
 
+        # 1d. scale: one Lexicon given SCALE variables with distinct 31-character names; every declaration, its name and the String of
+        #     its name are read again afterwards -- each reports the characters it was built from, and asking again gives the same nodes
+        for z in (sw.P.scale if reported == 0 else []):
+            if any(int(z.get(f, 1)) for f in ('wrong_names', 'wrong_strings', 'not_unified')):
+                res.violation('scale:strings', 'one Lexicon given %s variables with pairwise distinct 31-character names, all read again afterwards: %s declaration(s) '
+                              'report another name, %s String(s) other characters than they were built from, %s spelling(s) asked again give another node; '
+                              'first (index:built from:name reports/String reports): %s' % (z.get('n'), z.get('wrong_names'), z.get('wrong_strings'), z.get('not_unified'), z.get('first')),
+                              'scale %s\n# seed=%d %s' % (z.get('n'), C.seed(), ' '.join('%s=%s' % kv for kv in z.items())))
+                reported += 1
+        if reported == 0 and not sw.P.scale:
+            res.violation('crash', 'the probe did not answer `scale %d`' % SCALE, 'scale %d\n' % SCALE)
+            reported += 1
+
     # 2. correspondence: fresh operand choices replayed through the Lean model (table = regenerated wiring)
     ncorr = 0
     if reported == 0 and exp is not None and ok:
@@ -244,6 +271,7 @@ def run(tier):
     bh = W.parse_builder_histories(sw.out)
     res.cov['results_given_builder_calls_after_creation'] = len(bh)
     res.cov['setters_called_twice'] = {k: {'calls': v[0], 'nodes_where_the_first_call_was_observable': v[1]} for k, v in sorted(W.builder_coverage(bh).items())}
+    res.cov['scale_entries'] = sw.P.scale
     res.cov['source_kinds'] = W.src_histogram(sw.rows)
     res.cov['new_operand_forms'] = new_form_counts(sw)
     res.cov['storage'] = {k: sum(1 for r in sw.rows if r['storage'] == k) for k in ('generative', 'unified', 'mixed')}
@@ -288,6 +316,16 @@ def replay(path):
     m = re.search(r'seed=(\d+)', text)
     seed = int(m.group(1)) if m else C.seed()
     C.lean_build(['model_c02'])
+    zs = [l.split()[1] for l in text.splitlines() if l.startswith('scale ')]
+    if zs:
+        sw = W.Sweep(rounds=1, seed=seed, only=['expr_factory::make_phantom()'], extra_ops=['scale ' + zs[0]])
+        for z in sw.P.scale:
+            print('  SCALE ' + ' '.join('%s=%s' % kv for kv in z.items()))
+        if sw.crashed or not sw.P.scale or any(int(z.get(f, 1)) for z in sw.P.scale for f in ('wrong_names', 'wrong_strings', 'not_unified')):
+            print('VIOLATION property=C02 replay=%s' % path)
+            return 1
+        print('replay: property holds on this input')
+        return 0
     if not keys and 'recheck' in text.split():
         sw = W.Sweep(rounds=1, seed=seed, extra_ops=['recheck'])
         late = W.late_differences(sw.P)
